@@ -12,6 +12,15 @@ CHECKS = {
  "C04": ("must-hold lock-state dataflow over SSA with exact defer replay + write/freshness census over the call graph from the concurrent entry points",
          "Static, for all schedules: every write to shared memory reachable from Execute/GetSchema/LRUCache.Get/Put is inside an exclusive critical section of a mutex on its access path and every read of such memory holds it; index, schema, getters, Query and globals are not written at all; only read-only bbolt transactions. This proves race freedom of updog's own memory rather than sampling interleavings.",
          "Not decided: sequential-equivalence of results (follows from race freedom + C03.pure, not checked as such). Trusted: sync primitives, thread-safety of concurrent reads in roaring/bbolt/prometheus.", "DESIGN.md §4 C04"),
+ "C06": ("must-pass-through path search on the SSA CFG of both writers' flush functions (header puts / commits / bitmap puts keyed by the resolved key variables) + dominating-guard and error-flow rules in the open function",
+         "Static, for every crash point at commit granularity: on no path can a transaction holding the schema or row counter be committed before the last bitmap put; the two header keys share a transaction and every success return has committed them; the open function nil-guards the bucket, length-guards every binary decode and propagates decode errors. So every committed prefix is rejected by OpenIndex with an error, on all paths including ones that need a crash to execute.",
+         "Not decided: equality of answers of a completely written file (C05); sub-transaction crash points. Trusted: bbolt commit atomicity, gob fails on an empty schema item.", "DESIGN.md §4 C06"),
+ "C15": ("constant-option evaluation of the open hook + dominating nil/length guards + error-flow + must-pass-through (Close before every error return) on the open functions",
+         "Static, for every damaged file and every open/close sequence: OpenIndex cannot create a missing file; every dereference/decoding of file contents while opening is dominated by the matching guard and every decode error is propagated; every error return of the open function is preceded by a Close of the handle on all paths; Index.Close is nil-guarded and resets the handle.",
+         "Not decided: which byte patterns fail to decode; panics inside bbolt/roaring on malformed bytes (trusted not to occur).", "DESIGN.md §4 C15"),
+ "C17": ("must-hold lock-state dataflow on the driver's connection cache + same-critical-section path search (no unlock between lookup, OpenIndex and insert) + must-pass-through of the eviction before Index.Close",
+         "Static, for every open/close/concurrent-use history: cache accesses hold the driver mutex; lookup, index open, insert and refcount increment form one exclusive critical section; the last Close evicts the connection in the critical section of the decrement before closing the index.",
+         "Not decided: row correctness on an open handle (C12); two DSNs naming one file with different options (second open blocks on bbolt's flock; see DESIGN.md). Trusted: database/sql's calling conventions, bbolt flock.", "DESIGN.md §4 C17"),
  "C08": ("effect analysis: census of stores/map updates/mutating calls over everything reachable from Execute, with local freshness (ownership) analysis",
          "Static, for all queries and execution histories: no instruction reachable from Execute writes a field of Query or of an expression node, or memory reachable from one, unless that memory was allocated during the call. Sufficient for 'caller-visible fields unchanged' under the stated trusted base.",
          "Not decided: equality of repeated results (needs C03.pure + determinism). Trusted: no reflection/unsafe in the reachable set (asserted), go/ssa, call graph.", "DESIGN.md §4 C08"),
